@@ -3,6 +3,8 @@ import PygModel.Bind
 import PygModel.Cache
 import PygModel.Wrap
 import PygModel.WrapHist
+import PygModel.WrapLoops
+import PygModel.Try
 
 namespace Pyg.BindDriver
 open Pyg
@@ -104,6 +106,13 @@ def handle1 (op : String) (args : List Sexp) : Option String := do
       let fn := mkMany ds { chain := [], base := 0 }
       -- a `loops` layer that receives a list / tuple / dict of a looped type: outside the model (C19's subject) => bad-op
       if inDomain s fn.chain c then pure (reply (evalChain s recBody fn.chain c)) else Option.none
+  | "stackx", [s, ds, a, k] =>
+      -- round k6: the model whose `loops` layers loop over a list / tuple / dict of one of their types (WrapLoops.lean); answers
+      -- every line; inside the domain it is `evalChain` (theorem `evalChainL_in_domain`)
+      let s ← sigOf (← Val.ofSexp s); let ds ← decosOf (← Val.ofSexp ds)
+      let c ← callOf (← Val.ofSexp a) (← Val.ofSexp k)
+      let fn := mkMany ds { chain := [], base := 0 }
+      pure (reply (evalChainL s recBody fn.chain c))
   | "stackhist", [s, ds, cs] =>
       let s ← sigOf (← Val.ofSexp s); let ds ← decosOf (← Val.ofSexp ds)
       let fn := mkMany ds { chain := [], base := 0 }
@@ -141,6 +150,10 @@ def handle1 (op : String) (args : List Sexp) : Option String := do
           let out ← runMulti s recBody Call.hasArr {} steps
           pure (reply (.ok (.list (out.map fun r => .tuple [resVal r.1, .cell (.int r.2)]))))
       | _ => Option.none
+  | "presets", [] =>
+      -- round k6: the preset wrappers of _decorators.py:249-254 and their fallback values (`tryPresets`, Try.lean), compared with
+      -- the objects `pyg_base.try_nan … try_list` themselves (class, value, repeat, return_value)
+      pure (reply (.ok (.list (tryPresets.map fun nv => .tuple [.cell (.str nv.1), nv.2]))))
   | "mk", [ds] =>
       let ds ← decosOf (← Val.ofSexp ds)
       let fn := mkMany ds { chain := [], base := 0 }
